@@ -113,7 +113,7 @@ def run(ctx):
             for key, msg in probs:
                 opkeys[key] += 1
                 out.add_violation(key, "%s after %s: %s" % (seed, hist, msg), {"part": "ops", "seed": seed, "history": hist})
-        for ev in prefix[-1:]:
+        if prefix:
             out.nontrivial.add(("ops", seed, repr(prefix)))
     out.violations.sort(key=lambda v: len(v.case.get("history", [])) if v.case["part"] == "ops" else 0)
     out.states += nodes
